@@ -115,11 +115,14 @@ def rule_sql2(A: Analysis, rep, Q=None):
     loops = [l for l in walk_local(fi.node) if isinstance(l, ast.For) and norm(l.iter) == "tasks"]
     ok = len(loops) == 1 and not any(isinstance(x, (ast.Break, ast.Continue)) for x in walk_local(loops[0]))
     bl = A.calls_in_func(fi, "VersionIndex.bulk_load")
-    ok = ok and len(bl) == 2 and all(norm(c.func.value) == fi.params[1] and norm(c.args[0]) == "cursor" for c in bl)
-    # every execute is followed by a bulk_load of that cursor before the next execute / the return
-    exn = [n for n in g.nodes if n.kind == "stmt" and any(isinstance(c, ast.Call) and isinstance(c.func, ast.Attribute) and c.func.attr == "execute" for c in walk_local(n.ast))]
-    bln = [n for n in g.nodes if n.kind in ("stmt",) and A.calls_in(n.ast, "VersionIndex.bulk_load")]
-    ok = ok and all(g.all_paths_pass(e_, g.exit, bln, skip_labels=is_exc) for e_ in exn)
+    ok = ok and len(bl) == 2 and all(norm(c.func.value) == fi.params[1] and c.args and isinstance(c.args[0], ast.Name) for c in bl)
+    # every execute is followed by a bulk_load of *that* cursor before the next execute / the return
+    exn = [(n, norm(c.func.value)) for n in g.nodes if n.kind == "stmt" for c in walk_local(n.ast)
+           if isinstance(c, ast.Call) and isinstance(c.func, ast.Attribute) and c.func.attr == "execute"]
+    for (e_, cur) in exn:
+        bln = [n for n in g.nodes if n.kind == "stmt" and any(norm(c.args[0]) == cur for c in A.calls_in(n.ast, "VersionIndex.bulk_load") if c.args)]
+        ok = ok and bool(bln) and g.all_paths_pass(e_, g.exit, bln, skip_labels=is_exc)
+    ok = ok and bool(exn)
     rep.check(ok, "SQL2", "every selected row is loaded into dest", fi.node, "", "copy_entries_to does not bulk_load every selected cursor into `dest`")
     binds = [c for c in walk_local(fi.node) if isinstance(c, ast.Call) and isinstance(c.func, ast.Attribute) and c.func.attr == "execute" and len(c.args) == 2]
     loops_t = [l for l in walk_local(fi.node) if isinstance(l, ast.For) and norm(l.iter) == "tasks"]
